@@ -541,6 +541,16 @@ def deep_mutate(obj, depth=0, seen=None):
                     pass
         elif hasattr(v, "__dict__") and type(v).__module__.startswith("basictdf"):
             n += deep_mutate(v, depth + 1, seen)
+    if depth >= 1 and type(obj).__module__.startswith("basictdf"):
+        # a NESTED library object (an item, a viewport inside an item): besides editing its containers in place, its array attributes are
+        # REBOUND to other values (ch.camera_viewport.size = [w, h]) - the one edit that read-only decoded arrays allow
+        for name, v in attrs:
+            if isinstance(v, np.ndarray) and v.dtype != object and v.size:
+                try:
+                    setattr(obj, name, (np.array(v) * 0 + 77).astype(v.dtype))
+                    n += 1
+                except Exception:  # noqa - a read-only property: nothing to rebind
+                    pass
     return n
 
 
@@ -753,7 +763,88 @@ def run_deep(ctx, case):
     ctx.case(case, edits > 0, labels=[f"deep:{t}", origin])
 
 
+def _event_sources():
+    import array
+    import ctypes
+
+    class HasArray:   # an object that exposes its samples through __array__ (what pandas / xarray / torch containers do)
+        def __init__(self, v):
+            self._v = np.array(v, dtype="<f4")
+
+        def __array__(self, dtype=None, copy=None):
+            return self._v if dtype is None else self._v.astype(dtype, copy=False)
+
+        def __len__(self):
+            return len(self._v)
+
+        def __iter__(self):
+            return iter(self._v)
+
+    v = [0.5, 1.5, 2.5]
+    return {"list": lambda: list(v), "tuple": lambda: tuple(v), "array.array-f": lambda: array.array("f", v), "array.array-d": lambda: array.array("d", v),
+            "ctypes-float": lambda: (ctypes.c_float * 3)(*v), "ctypes-double": lambda: (ctypes.c_double * 3)(*v),
+            "memoryview-f": lambda: memoryview(array.array("f", v)), "bytearray-backed-f4": lambda: memoryview(bytearray(np.array(v, "<f4").tobytes())).cast("f"),
+            "has-__array__": lambda: HasArray(v), "range": lambda: range(3), "deque": lambda: __import__("collections").deque(v)}
+
+
+def enum_sources(tier):
+    for src in _event_sources():
+        for kind in (1, 0):
+            for how in ("two-events", "two-blocks-and-decoded-twin"):
+                yield {"source": src, "type": kind, "how": how}
+
+
+def run_sources(ctx, case):
+    """ONE sequence object (not a numpy array) handed to two separate constructor calls: each constructor converts it, so each object owns
+    what it made of it - as with a list"""
+    import io
+
+    from basictdf.tdfEvents import Event, EventsDataType, TemporalEventsData
+
+    src = _event_sources()[case["source"]]()
+    kind = EventsDataType(case["type"])
+    if kind == EventsDataType.singleEvent:
+        one = _event_sources()[case["source"]]
+        src = type(src)(list(src)[:1]) if case["source"] in ("list", "tuple", "deque") else src
+    try:
+        e1, e2 = Event("strike", src, kind), Event("strike", src, kind)
+    except Exception:  # noqa - a constructor that does not take this kind of sequence (or three values for a single event): C19's subject
+        ctx.case(case, False, labels=["sources", case["source"], "refused"])
+        return
+    a, b = TemporalEventsData(), TemporalEventsData()
+    a.events.append(e1)
+    b.events.append(e2)
+
+    def enc(x):
+        s = io.BytesIO()
+        x._write(s)
+        return s.getvalue()
+
+    before_b, vals_b = enc(b), np.array(e2.values).tolist()
+    edited = False
+    try:
+        e1.values[0] = 99.0     # an item of block a is edited in place
+        edited = True
+    except Exception:  # noqa - an immutable source / read-only values: nothing edited, nothing to show
+        pass
+    if edited:
+        if np.array(e2.values).tolist() != vals_b or enc(b) != before_b:
+            ctx.fail(f"sources/{case['how']}/sibling-changed", f"two Event objects made by separate constructor calls from one {case['source']} object: "
+                                                               f"editing the values of one in place "
+                                                               f"changed the other ({vals_b} -> {np.array(e2.values).tolist()})")
+        if case["how"] == "two-blocks-and-decoded-twin":
+            twin = TemporalEventsData._build(io.BytesIO(before_b), b.format.value)
+            if enc(twin) != enc(b):
+                ctx.fail("sources/decoded-twin-differs", f"a block holding an Event made from a {case['source']} object no longer encodes like the block decoded from its own "
+                                                         f"earlier encoding, after ANOTHER block's event (made from the same source object) was edited")
+    ctx.case(case, edited, labels=["sources", case["source"], case["how"], "edited" if edited else "not-editable"])
+
+
 SUBS = [make(t) for t in TYPES]
+SUBS.append(Sub("one-source-two-constructors", run_sources, kind="enum", enumerate=enum_sources, shards=(2, 4),
+                rule="one sequence object that is not a numpy array (list, tuple, array.array f/d, ctypes float / double array, memoryview cast to f, an object with __array__, "
+                     "range, deque) handed to two separate Event constructor calls x both event types x (one event edited in place / a "
+                     "decoded twin compared): the other event keeps its values and encoding; finite, enumerated", nontrivial_required=False))
 SUBS.append(Sub("deep-mutation", run_deep, strategy=deep_strategy, budget=(300, 6000), shards=(2, 8),
                 rule="all nine block classes: two instances made the same way (constructed / constructed empty / decoded from the same bytes / by the bare constructor with "
                      "nothing assigned afterwards); every list and writable array reachable from one is edited in place; the sibling and a block constructed afterwards "
